@@ -76,7 +76,25 @@ func checkC01(c *fw.Ctx) {
 			c.CheckGate("3 raw-input", fn, short, fw.GuardCallErrNil("CheckCanonicalJSON", chk), fw.ErrNilSuccess(fn, fw.ErrIndex(fn), nil))
 			for _, call := range fw.CallsTo(fn, false, chk) {
 				args := call.Common().Args
-				ok := len(args) >= 1 && isParam(args[len(args)-1], fn, 0)
+				// the input is the first parameter of type []byte (a method's receiver comes before it)
+				pidx := 0
+				for i, p := range fn.Params {
+					if sl, isSl := p.Type().Underlying().(*types.Slice); isSl {
+						if bt, isB := sl.Elem().Underlying().(*types.Basic); isB && bt.Kind() == types.Byte {
+							pidx = i
+							break
+						}
+					}
+				}
+				ok := len(args) >= 1 && isParam(args[len(args)-1], fn, pidx)
+				if !ok && len(args) >= 1 {
+					// rewritten bytes are the result of a call (sjson, a stripping helper); anything else
+					// (a field of a request object, a captured variable) is not known to be rewritten
+					if cl, _ := fw.CallOf(fw.Unwrap(args[len(args)-1])); cl == nil {
+						c.Undecided("3 raw-input", short+": enforcement is applied to the raw input", "CheckCanonicalJSON is applied to "+fw.Sig(args[len(args)-1])+", which is neither the input parameter nor the result of a rewriting call")
+						continue
+					}
+				}
 				c.Check(ok, "3 raw-input", short+": enforcement is applied to the raw input", c.P.Pos(call.Pos()), "", "CheckCanonicalJSON is applied to bytes that have already been rewritten (not the untouched parameter)")
 			}
 			_, bad := fw.MustPrecede(fn, fw.IsCallTo(chk), fw.IsCallTo(fw.NameIs("github.com/tidwall/sjson.DeleteBytes", "gmsl.CanonicalJSONAssumeValid")))
